@@ -902,7 +902,8 @@ theorem phase3 {w w2 : World} (hinv : Inv S v0 w)
         let replaced := match baseFi with
           | some b => !b.isRegular
           | none => false
-        BFS.whenM (!fi.isRegular || replaced) (primUnit cfg .base (.removeAll (kp k)))
+        if !fi.isRegular then primUnit cfg .base (.removeAll (kp k))
+        else BFS.whenM replaced (primUnit cfg .base (.remove (kp k)))
         copyFile cfg .base (kp k) i f : M Unit) wa
         (fun w3 r => r = .ok () ∧ S.Chg .base (· = k) w' w3 ∧ S.view .base w3.fs k = some (restoredFile c i)) := by
       apply Sat.bind
@@ -924,9 +925,9 @@ theorem phase3 {w w2 : World} (hinv : Inv S v0 w)
       have hsac := hsab.trans hsc
       have hgc : S.G wc.fs := hsac.fs ▸ hm.good
       have hfc : wc.faults = [] := by rw [hsac.faults]; exact hm.faults
-      have hroom : ∃ cur, rc = .ok cur ∧ Sat (BFS.whenM (!fi.isRegular || (match cur with
+      have hroom : ∃ cur, rc = .ok cur ∧ Sat (BFS.whenM (match cur with
           | some b => !b.isRegular
-          | none => false)) (primUnit cfg .base (.removeAll (kp k)))) wc (fun w3 r => r = .ok () ∧
+          | none => false) (primUnit cfg .base (.remove (kp k)))) wc (fun w3 r => r = .ok () ∧
             S.Chg .base (· = k) w' w3 ∧ CanWrite (S.view .base w3.fs) k) := by
         have hpar : ∀ w3, S.Chg .base (· = k) w' w3 → (S.view .base w3.fs).parentDir k := by
           intro w3 hc
@@ -938,7 +939,7 @@ theorem phase3 {w w2 : World} (hinv : Inv S v0 w)
         | none =>
           refine ⟨none, hnone (by rw [hsab.fs]; exact hv), ?_⟩
           apply Sat.whenM
-          · intro h; simp [hfireg] at h
+          · intro h; cases h
           · intro _
             have hc := Sim.Chg.of_same (S := S) (s := .base) (K := (· = k)) hm.good hsac
             exact ⟨rfl, hc, Or.inr ⟨by rw [hsac.fs]; exact hv, hpar wc hc⟩⟩
@@ -949,28 +950,24 @@ theorem phase3 {w w2 : World} (hinv : Inv S v0 w)
           | file c' mt' =>
             have : bi.isRegular = true := by simp [Info.isRegular, hbi.1, Node.kind]
             apply Sat.whenM
-            · intro h; simp [hfireg, this] at h
+            · intro h; simp [this] at h
             · intro _
               exact ⟨rfl, Sim.Chg.of_same hm.good hsac, Or.inl ⟨c', mt', by rw [hsac.fs]; exact hv⟩⟩
           | link t mt' => exact absurd hv (S.no_link hm.good)
           | dir mt' =>
             apply Sat.whenM
             · intro _
-              have hvc : S.view .base wc.fs k ≠ none := by rw [hsac.fs, hv]; simp
-              apply (sat_primUnit_exact (S := S) (s := .base) (c := .removeAll (kp k)) (K := (· = k))
+              -- the directory in the way is empty: what the transaction created below it went in phase 1
+              have hnochild : ¬ (S.view .base wc.fs).hasChild k := by
+                rintro ⟨name, hch⟩
+                rw [hsac.fs] at hch
+                exact hch (hbelow (k ++ [name]) ⟨[name], rfl⟩ (by simp))
+              apply (sat_primUnit_exact (S := S) (s := .base) (c := .remove (kp k)) (K := (· = k))
                 (P := fun m' => S.view .base m' k = none) hgc
                 (fun m' r h => by
-                  obtain ⟨g, o, f'⟩ := S.removeAll_frame hgc hk hkne h
-                  obtain ⟨m'', h'', hall⟩ := S.removeAll_ok hgc hk hkne hvc
-                  rw [h] at h''; cases h''
-                  refine ⟨g, o, ?_⟩
-                  intro j hj
-                  by_cases hpre : k <+: j
-                  · rw [hall j hpre, hsac.fs, hbelow j hpre hj]
-                  · exact f' j hpre)
-                (by
-                  obtain ⟨m'', h'', hall⟩ := S.removeAll_ok hgc hk hkne hvc
-                  exact ⟨m'', h'', hall k List.prefix_rfl⟩)).mono
+                  obtain ⟨g, o, f'⟩ := S.remove_frame hgc hk hkne h
+                  exact ⟨g, o, fun j hj => f' j hj⟩)
+                (S.remove_ok hgc hk hkne (Or.inr ⟨⟨mt', by rw [hsac.fs]; exact hv⟩, hnochild⟩))).mono
               intro w3 r3 ⟨hc3, hp3, hof3⟩
               obtain ⟨u, hr⟩ := OnlyFault.nofault hof3 hfc
               subst hr
@@ -981,7 +978,7 @@ theorem phase3 {w w2 : World} (hinv : Inv S v0 w)
               simp [this] at h
       obtain ⟨cur, hrc, hroomsat⟩ := hroom
       subst hrc
-      simp only
+      simp only [hfireg, Bool.not_true, Bool.false_eq_true, if_false]
       apply Sat.bind
       apply hroomsat.mono
       intro w3 r3 ⟨hr3, hc3, hcw3⟩
